@@ -508,7 +508,15 @@ func (c *Cluster) Merge(regionID1, regionID2 uint64) {
 	c.Lock()
 	defer c.Unlock()
 
-	c.regions[regionID1].merge(c.regions[regionID2].Meta.GetEndKey())
+	// Like TiKV, the merged region's version is max(version1, version2) + 1.
+	r1, r2 := c.regions[regionID1], c.regions[regionID2]
+	if v2 := r2.Meta.GetRegionEpoch().GetVersion(); v2 > r1.Meta.GetRegionEpoch().GetVersion() {
+		r1.Meta.RegionEpoch = &metapb.RegionEpoch{
+			ConfVer: r1.Meta.GetRegionEpoch().GetConfVer(),
+			Version: v2,
+		}
+	}
+	r1.merge(r2.Meta.GetEndKey())
 	delete(c.regions, regionID2)
 }
 
@@ -727,7 +735,11 @@ func (r *Region) split(newRegionID uint64, key MvccKey, peerIDs []uint64, leader
 	for _, peer := range r.Meta.Peers {
 		storeIDs = append(storeIDs, peer.GetStoreId())
 	}
-	region := newRegion(newRegionID, storeIDs, peerIDs, leaderPeerID)
+	// Like TiKV, both halves of a split carry the version of the region that is
+	// split plus one. The client's region cache relies on it: region info with a
+	// lower version than an overlapping cached region is discarded as stale.
+	epoch := r.Meta.GetRegionEpoch()
+	region := newRegion(newRegionID, storeIDs, peerIDs, leaderPeerID, epoch.GetConfVer(), epoch.GetVersion())
 	region.updateKeyRange(key, r.Meta.EndKey)
 	r.updateKeyRange(r.Meta.StartKey, key)
 	return region
